@@ -167,7 +167,7 @@ def body(prop, args, seed, t0):
         n2, bad2, untranslatable = translated_check.run(seed, only=prop)
         tie = {"prelude_vs_cpython": n1, "translated_vs_python_function": n2,
                "translated_functions": [f"{fn.__module__.split('quantum.')[-1]}.{fn.__name__} -> Translated.{nm}"
-                                        for fn, nm, *_ in _tables._specs()[prop]],
+                                        for fn, nm, *_rest in _tables._specs()[prop]],
                "untranslatable_now": untranslatable}
         if bad1 or bad2:
             for b in (bad1 + bad2)[:10]:
